@@ -177,7 +177,7 @@ func runC09(c *Ctx, r *Report) {
 			(guardIf == nil || instrDominates(guardIf, incr))
 		r.Check(okCount, "C09.R2", fname, "depth is incremented before and decremented after evalInternal", c.Pos(fn.Pos()), "the depth counter does not bracket the evaluation")
 		// applyFunction goes through Eval
-		af := c.SSAFn(c.Fn("eval", "State.applyFunction"))
+		af := c.cacheStoreFn() // applyFunction, or the part of it that evaluates the body
 		extend := c.Fn("eval", "State.extendFunctionEnv")
 		viaEval := false
 		direct := false
@@ -192,6 +192,17 @@ func runC09(c *Ctx, r *Report) {
 					arg = a.X
 				case *ssa.ChangeInterface:
 					arg = a.X
+				}
+			}
+			// the body may be handed over as a parameter (applyFunction split after extendFunctionEnv)
+			if p, ok := arg.(*ssa.Parameter); ok {
+				if sites := c.staticCallSites(af); len(sites) > 0 {
+					arg = sites[0].Common().Args[paramIndex(af, p)]
+					for _, site := range sites[1:] {
+						if site.Common().Args[paramIndex(af, p)] != arg {
+							arg = nil
+						}
+					}
 				}
 			}
 			if ex, ok := arg.(*ssa.Extract); ok {
